@@ -47,7 +47,7 @@ func runC04(c *an.Ctx) {
 	indexTo := p.Func("store", "indexTo")
 	okA := true
 	for name, f := range map[string]*ssa.Function{"store.(*Store).Get": get, "store.(*Store).Has": has, "store.(*Store).getByHeight": lookup, "store.(*Store).nextHead": nextHead,
-		"store.(*Store).nextTail": nextTail, "store.(*Store).advanceHead": advance, "store.(*Store).getRangeByHeight": rangeFn, "store.(*Store).flush": flush, "store.indexTo": indexTo} {
+		"store.(*Store).nextTail": nextTail, "store.(*Store).advanceHead": advance, "store.(*Store).getRangeByHeight": rangeFn, "store.(*Store).flush": flush} {
 		okA = c.Need(f, "C04.a", name) && okA
 	}
 	if !okA {
@@ -460,14 +460,19 @@ func runC04(c *an.Ctx) {
 				okI = true
 			}
 		}
-		it := c.T(indexTo)
+		// (the index may also be written by flush itself, when the helper was folded into it)
+		idxFn := indexTo
+		if idxFn == nil {
+			idxFn, okI = flush, true
+		}
+		it := c.T(idxFn)
 		okPut := false
 		for _, l := range indexLoops(it) {
 			if it.Of(l.Slice) != "p2" || len(l.Elems) == 0 {
 				continue
 			}
 			e := it.Of(l.Elems[0])
-			an.Instrs(indexTo, func(in ssa.Instruction) {
+			an.Instrs(idxFn, func(in ssa.Instruction) {
 				call, ok := in.(*ssa.Call)
 				if !ok || !call.Call.IsInvoke() || call.Call.Method.Name() != "Put" {
 					return
@@ -479,7 +484,7 @@ func runC04(c *an.Ctx) {
 				}
 			})
 		}
-		c.Check(okI && okPut, "C04.d", "index-same-header", "the same flush writes heightKey(h.Height()) ↦ h.Hash() for every header of the batch", indexTo, nil, "", nil)
+		c.Check(okI && okPut, "C04.d", "index-same-header", "the same flush writes heightKey(h.Height()) ↦ h.Hash() for every header of the batch", idxFn, nil, "", nil)
 	}
 
 	// --- C04.e range reader
